@@ -146,7 +146,7 @@ CallEnd(ev) ==
          held1 == IF sg.r = "STR" /\ ev.sig = "" /\ ev.ret.blk >= 0 THEN held \cup {ev.ret.blk} ELSE held
          owned1 == OwnedZ(zs1) \cup OwnedQ(qs1) \cup OwnedF(fs1) \cup held1
          otherR == UNION {rs[i].blks : i \in (DOMAIN rs) \ argR}
-         extra == LiveIds(heap) \ (owned1 \cup otherR)       \* blocks nobody else owns: may only belong to a random state argument
+         extra == LiveIds(heap) \ (owned1 \cup otherR)       \* blocks nobody outside the call's random states owns
          dead1 == IF sg.life = "-" /\ ks[1] = "R" THEN {ev.a[1]} ELSE {}
          posR == {j \in 1..n : ks[j] = "R"}
          firstR == IF posR = {} THEN -1 ELSE ev.a[CHOOSE j \in posR : \A j2 \in posR : j <= j2]
@@ -161,9 +161,10 @@ CallEnd(ev) ==
          seeded == Len(newkey) >= 2 /\ newkey[2][1] \in {"gmp_randseed", "gmp_randseed_ui"}
          isDraw == firstR # -1 /\ ev.f \notin {"gmp_randinit_default", "gmp_randinit_mt", "gmp_randinit_lc_2exp", "gmp_randinit_lc_2exp_size",
                                                 "gmp_randinit_set", "gmp_randseed", "gmp_randseed_ui", "gmp_randclear"}
-         rs1 == [i \in DOMAIN rs |-> IF i \in dead1 THEN [live |-> FALSE, blks |-> {}, key |-> <<>>]
-                                     ELSE IF i = firstR
-                                          THEN [live |-> TRUE, blks |-> extra, key |-> newkey]
+         initFailed == ev.f = "gmp_randinit_lc_2exp_size" /\ ev.ret = 0       \* size not in the table: the state is NOT initialised
+         rs1 == [i \in DOMAIN rs |-> IF i \in dead1 \/ (i = firstR /\ initFailed) THEN [live |-> FALSE, blks |-> {}, key |-> <<>>]
+                                     ELSE IF i = firstR        \* the first random state argument receives what the call allocated (minus the other arguments' blocks)
+                                          THEN [live |-> TRUE, blks |-> extra \ UNION {rs[j].blks : j \in argR \ {firstR}}, key |-> newkey]
                                      ELSE IF i \in argR THEN [live |-> TRUE, blks |-> rs[i].blks \cap LiveIds(heap), key |-> rs[i].key]
                                      ELSE rs[i]]
      IN
